@@ -31,6 +31,8 @@ type fnInfo struct {
 	recvPtr bool
 	pure    bool
 	mutates bool
+	via     bool // the receiver's struct has a --via field: the instance it points to is an explicit parameter
+	mutVia  bool // ... and the function modifies that instance (it is then the first component of the result)
 	errCtor bool
 	params  []param // extra leading parameters (library parameters such as the page size, interface methods)
 	mark    int
@@ -45,6 +47,9 @@ type tr struct {
 	iface   map[string]string // Struct.field.Method | Type.Method | Type.call | Type.as.Type2 -> Coq parameter name
 	opaque  map[string]bool   // named interface/func types that are opaque handles (Z)
 	objects map[string]bool   // struct types whose pointers are object ids (--object S)
+	via     map[string]string // struct name -> field that points to the single instance of a by-value struct (--via S.f)
+	devirt  map[string]string // interface name -> struct whose pointers its values are (--devirt I=S)
+	usesPtr bool              // the output needs lib.GoLitePtr (maps, iter_objs)
 	w       *world
 	fns     map[*types.Func]*fnInfo
 	structs map[*types.TypeName]*structInfo
@@ -58,7 +63,7 @@ func (t *tr) failf(n ast.Node, format string, a ...any) {
 	panic(&unsupported{fmt.Sprintf("%s: %s", t.w.pos(n), fmt.Sprintf(format, a...))})
 }
 
-func translate(repo, pkgdir string, roots, fuels, params, ifaces, shapes, require, objects []string, printShapes bool) (text string, err error) {
+func translate(repo, pkgdir string, roots, fuels, params, ifaces, shapes, require, objects, vias, devirts []string, printShapes bool) (text string, err error) {
 	defer func() {
 		if r := recover(); r != nil {
 			if u, ok := r.(*unsupported); ok {
@@ -80,7 +85,21 @@ func translate(repo, pkgdir string, roots, fuels, params, ifaces, shapes, requir
 	if err != nil {
 		return "", err
 	}
-	t := &tr{w: w, fns: map[*types.Func]*fnInfo{}, structs: map[*types.TypeName]*structInfo{}, fuel: map[string]string{}, libpar: map[string]string{}, iface: map[string]string{}, opaque: map[string]bool{}, objects: map[string]bool{}}
+	t := &tr{w: w, fns: map[*types.Func]*fnInfo{}, structs: map[*types.TypeName]*structInfo{}, fuel: map[string]string{}, libpar: map[string]string{}, iface: map[string]string{}, opaque: map[string]bool{}, objects: map[string]bool{}, via: map[string]string{}, devirt: map[string]string{}}
+	for _, v := range vias {
+		i := strings.Index(v, ".")
+		if i < 0 {
+			return "", fmt.Errorf("bad --via %q", v)
+		}
+		t.via[v[:i]] = v[i+1:]
+	}
+	for _, v := range devirts {
+		i := strings.Index(v, "=")
+		if i < 0 {
+			return "", fmt.Errorf("bad --devirt %q", v)
+		}
+		t.devirt[v[:i]] = v[i+1:]
+	}
 	for _, o := range objects {
 		t.objects[strings.TrimSpace(o)] = true
 	}
@@ -162,9 +181,17 @@ func translate(repo, pkgdir string, roots, fuels, params, ifaces, shapes, requir
 	}
 	t.classify()
 	var b strings.Builder
-	b.WriteString("(* GENERATED by harness/cmd/go2coq from " + filepath.ToSlash(pkgdir) + " (roots: " + strings.Join(roots, ", ") + ").\n")
-	b.WriteString("   Do not edit; regenerated from the working tree on every run.  Semantics of the\n   vocabulary: coq/lib/GoLite.v; subset and translation scheme: notes/TRANSLATOR.md. *)\n")
-	b.WriteString("From Coq Require Import List ZArith Bool.\nFrom GL Require Import lib.GoLite.\nImport ListNotations.\nOpen Scope Z_scope.\n\nModule Gen.\n")
+	header := func() string {
+		var hb strings.Builder
+		hb.WriteString("(* GENERATED by harness/cmd/go2coq from " + filepath.ToSlash(pkgdir) + " (roots: " + strings.Join(roots, ", ") + ").\n")
+		hb.WriteString("   Do not edit; regenerated from the working tree on every run.  Semantics of the\n   vocabulary: coq/lib/GoLite.v; subset and translation scheme: notes/TRANSLATOR.md. *)\n")
+		lib := "lib.GoLite"
+		if t.usesPtr {
+			lib += " lib.GoLitePtr"
+		}
+		hb.WriteString("From Coq Require Import List ZArith Bool.\nFrom GL Require Import " + lib + ".\nImport ListNotations.\nOpen Scope Z_scope.\n\nModule Gen.\n")
+		return hb.String()
+	}
 	if printShapes {
 		var sb strings.Builder
 		for _, fi := range t.order {
@@ -249,7 +276,7 @@ func translate(repo, pkgdir string, roots, fuels, params, ifaces, shapes, requir
 	}
 	b.WriteString(body.String())
 	b.WriteString("\nEnd Gen.\n")
-	return b.String(), nil
+	return header() + b.String(), nil
 }
 
 func fnKey(fi *fnInfo) string {
@@ -291,6 +318,11 @@ func (t *tr) visit(fi *fnInfo) {
 		_, fi.recvPtr = types.Unalias(sig.Recv().Type()).(*types.Pointer)
 	}
 	fi.errCtor = t.isErrCtor(fi)
+	if fi.recv != nil {
+		if n := t.structOf(fi.recv.Type()); n != nil {
+			_, fi.via = t.via[n.Origin().Obj().Name()]
+		}
+	}
 	if !fi.errCtor {
 		ast.Inspect(fi.decl.Body, func(n ast.Node) bool {
 			call, ok := n.(*ast.CallExpr)
@@ -345,6 +377,18 @@ func (t *tr) calleeOf(pk *pkgInfo, call *ast.CallExpr) *fnInfo {
 	f, ok := obj.(*types.Func)
 	if !ok {
 		return nil
+	}
+	// a method of an interface whose values are pointers to one struct (--devirt I=S)
+	if sig, ok := f.Type().(*types.Signature); ok && sig.Recv() != nil {
+		if n, ok := types.Unalias(sig.Recv().Type()).(*types.Named); ok {
+			if sn, ok := t.devirt[n.Origin().Obj().Name()]; ok {
+				for _, fi := range t.fns {
+					if fi.decl.Recv != nil && len(fi.decl.Recv.List) == 1 && recvTypeName(fi.decl.Recv.List[0].Type) == sn && fi.decl.Name.Name == f.Name() && fi.pk.pkg == n.Obj().Pkg() {
+						return fi
+					}
+				}
+			}
+		}
 	}
 	// repository functions that are modelled by hand in GoLite (unsafe casts)
 	switch f.FullName() {
@@ -435,14 +479,10 @@ func (t *tr) classify() {
 					}
 				}
 				for _, l := range x.Lhs {
-					if t.assignsReceiver(fi, l) {
-						fi.mutates = true
-					}
+					t.noteAssign(fi, l)
 				}
 			case *ast.IncDecStmt:
-				if t.assignsReceiver(fi, x.X) {
-					fi.mutates = true
-				}
+				t.noteAssign(fi, x.X)
 			case *ast.TypeAssertExpr:
 				if name, ok := t.assertParam(fi.pk, x); ok {
 					fi.pure = false
@@ -454,6 +494,8 @@ func (t *tr) classify() {
 						switch id.Name {
 						case "copy", "make", "panic", "append":
 							fi.pure = false
+						case "delete":
+							t.noteAssign(fi, x.Args[0])
 						case "new":
 							if tv, ok := info.Types[x]; ok && t.objectOf(tv.Type) != nil {
 								fi.pure = false
@@ -478,8 +520,22 @@ func (t *tr) classify() {
 					if c.mutates && fi.recv != nil {
 						if sel, ok := ast.Unparen(x.Fun).(*ast.SelectorExpr); ok {
 							if id := rootIdent(info, sel.X); id != nil && info.Uses[id] == fi.recv {
-								fi.mutates = true
+								if t.throughVia(fi.pk, sel.X) {
+									fi.mutVia = true
+								} else {
+									fi.mutates = true
+								}
 							}
+						}
+					}
+					if c.mutVia {
+						// the callee modifies the instance behind its --via field: here that is
+						// the via parameter of this method, or this method's receiver
+						switch {
+						case fi.via:
+							fi.mutVia = true
+						case fi.recv != nil:
+							fi.mutates = true
 						}
 					}
 					for _, p := range c.params {
@@ -499,7 +555,59 @@ func (t *tr) classify() {
 		if fi.mutates && !fi.recvPtr {
 			t.failf(fi.decl, "assignment to a field of a value receiver")
 		}
+		if fi.via {
+			fi.pure = false
+		}
 	}
+}
+
+// noteAssign: an assignment to the place lhs modifies the receiver record or
+// the instance behind the receiver's --via field
+func (t *tr) noteAssign(fi *fnInfo, lhs ast.Expr) {
+	if !t.assignsReceiver(fi, lhs) {
+		return
+	}
+	if t.throughVia(fi.pk, lhs) {
+		fi.mutVia = true
+	} else {
+		fi.mutates = true
+	}
+}
+
+// throughVia: the field path e passes through a --via field (x.f...)
+func (t *tr) throughVia(pk *pkgInfo, e ast.Expr) bool {
+	for {
+		switch x := ast.Unparen(e).(type) {
+		case *ast.SelectorExpr:
+			if t.isViaSel(pk, x) {
+				return true
+			}
+			e = x.X
+			continue
+		case *ast.IndexExpr:
+			e = x.X
+			continue
+		}
+		return false
+	}
+}
+
+// isViaSel: x.f with f the --via field of x's struct
+func (t *tr) isViaSel(pk *pkgInfo, x *ast.SelectorExpr) bool {
+	sel, ok := pk.info.Selections[x]
+	if !ok || sel.Kind() != types.FieldVal {
+		return false
+	}
+	tv, ok := pk.info.Types[x.X]
+	if !ok {
+		return false
+	}
+	n := t.structOf(tv.Type)
+	if n == nil {
+		return false
+	}
+	f, ok := t.via[n.Origin().Obj().Name()]
+	return ok && f == x.Sel.Name
 }
 
 func addParam(fi *fnInfo, p param) {
@@ -697,6 +805,15 @@ func (t *tr) assignsReceiver(fi *fnInfo, lhs ast.Expr) bool {
 		id, ok := ast.Unparen(st.X).(*ast.Ident)
 		return ok && fi.pk.info.Uses[id] == fi.recv
 	}
+	if ix, ok := ast.Unparen(lhs).(*ast.IndexExpr); ok {
+		// m[k] = v with m a map held in a field: the record changes
+		if tv, ok := fi.pk.info.Types[ix.X]; ok && isMapType(tv.Type) {
+			if _, isSel := ast.Unparen(ix.X).(*ast.SelectorExpr); isSel {
+				return t.assignsReceiver(fi, ix.X)
+			}
+		}
+		return false
+	}
 	sel, ok := ast.Unparen(lhs).(*ast.SelectorExpr)
 	if !ok {
 		return false
@@ -781,6 +898,11 @@ func isStringType(ty types.Type) bool {
 	return ok && b.Info()&types.IsString != 0
 }
 
+func isMapType(ty types.Type) bool {
+	_, ok := types.Unalias(ty).Underlying().(*types.Map)
+	return ok
+}
+
 func isSliceType(ty types.Type) bool {
 	_, ok := types.Unalias(ty).Underlying().(*types.Slice)
 	return ok
@@ -798,6 +920,16 @@ func (t *tr) structOf(ty types.Type) *types.Named {
 	n, ok := ty.(*types.Named)
 	if !ok {
 		return nil
+	}
+	if _, isI := n.Underlying().(*types.Interface); isI {
+		// an interface whose values are pointers to one struct (--devirt I=S)
+		if sn, ok := t.devirt[n.Origin().Obj().Name()]; ok && n.Obj().Pkg() != nil {
+			if tn, ok := n.Obj().Pkg().Scope().Lookup(sn).(*types.TypeName); ok {
+				if sn2, ok := types.Unalias(tn.Type()).(*types.Named); ok {
+					n = sn2
+				}
+			}
+		}
 	}
 	if _, ok := n.Underlying().(*types.Struct); !ok {
 		return nil
@@ -823,6 +955,12 @@ func (t *tr) structInfoOf(at ast.Node, n *types.Named) *structInfo {
 	// fields whose type is outside the subset are left out of the record; any
 	// access to them makes the translation of that function fail
 	for i := 0; i < st.NumFields(); i++ {
+		if vf, ok := t.via[key.Name()]; ok && vf == st.Field(i).Name() {
+			if t.structOf(st.Field(i).Type()) == nil {
+				t.failf(at, "--via field %s.%s does not point to a translated struct", key.Name(), vf)
+			}
+			continue // threaded as an explicit parameter
+		}
 		if t.inSubset(st.Field(i).Type()) {
 			s.fields = append(s.fields, st.Field(i))
 		} else {
@@ -903,6 +1041,11 @@ func (t *tr) coqType(at ast.Node, ty types.Type) string {
 		if isIntegerType(u.Elem()) || t.objectOf(u.Elem()) != nil || t.opaqueName(u.Elem()) != "" {
 			return "gslice"
 		}
+	case *types.Map:
+		if isIntegerType(u.Key()) && (isIntegerType(u.Elem()) || t.objectOf(u.Elem()) != nil) {
+			t.usesPtr = true
+			return "gomap" // an association list value (lib/GoLitePtr.v)
+		}
 	case *types.Struct:
 		t.failf(at, "struct type %s is not declared in the repository", ty)
 	}
@@ -920,6 +1063,8 @@ func (t *tr) zeroOf(at ast.Node, ty types.Type) string {
 		return "nil_slice"
 	case "error":
 		return "ENil"
+	case "gomap":
+		return "mapnew"
 	}
 	if n := t.structOf(ty); n != nil {
 		s := t.structInfoOf(at, n)
@@ -976,6 +1121,7 @@ func init() {
 		load store reslice gocopy gomake step Next Done ctl Fall Return iter be_bytes be_put be_val be_get cast_id
 		Z N nat bool unit tt true false list nil cons fst snd pair negb andb orb length app nth firstn skipn repeat map
 		Some None option S O st c r_
+		gomap mapnew mapfind mapget mapdel mapset maplen iter_objs fld_load fld_store obj_new obj_arr goappend b2z z2b
 		left right inl inr inleft inright exist existT ex_intro conj or_introl or_intror eq_refl I Eq Lt Gt Z0 Zpos Zneg xH xO xI N0 Npos
 		id not and or iff ex eq le lt ge gt plus mult minus pred min max fold_left fold_right rev In Forall seq combine split
 		ringBuffer Blocks`) {
